@@ -3,7 +3,12 @@ Correspondence: Fuse.protection_function and OCRelay.protection_function (DTOC /
 with stubbed result tables (res_switch_sc.ikss_ka, res_switch.i_ka) over sorted current sweeps that contain the thresholds
 themselves, values just around them, 0, NaN; the returned dicts are compared with C29.Model.
 Oracle: the property text on the returned dicts (monotone times, trip iff pick-up exceeded, activation value = switch current
-of the chosen table), independent of the model."""
+of the chosen table), independent of the model.
+Settings: time_grading (list form on nets with parallel lines / open switches / gapped switch index, DataFrame form with
+shuffled / filtered / relabelled rows and wrong column order) and the reads in create_protection_function (times and manual
+pick-up currents of the row with the relay's switch_id) are compared with C29.Grading; oracle: the relay holds the user's values of ITS switch id
+(repaired: the rows are now selected by the switch_id column; the old label / position reads are kept in the model as
+relay_times_old / pickup_iloc and must DIFFER from the impl on a witness, see regression check)."""
 import math, copy
 import numpy as np, pandas as pd
 import pandapower as pp
@@ -17,13 +22,16 @@ RULE = ("devices: fuses with generated monotone characteristics (3-8 points, log
         "I_s <= I> <= I>>, t>> <= t> <= inverse curve at I>; 20 % not, correspondence only); sweeps of 8-16 currents containing "
         "every threshold exactly, neighbours one ulp-scale step away, 0 and NaN; scenario sc / pp / invalid; the two result "
         "tables hold different values; non-trivial = the sweep crosses at least one threshold of the device")
-ASSUMPTIONS = ["the melting curve of a fuse (LogSplineCharacteristic, PCHIP in log-log) is an oracle: its value is passed to the model and "
-               "its monotonicity on [i_start, i_stop] is checked on a 60-point grid for every generated fuse",
+ASSUMPTIONS = ["the VALUE of the melting curve of a fuse (LogSplineCharacteristic, PCHIP in log-log) is passed to the protection_function model as "
+               "an oracle; its monotonicity on [i_start, i_stop] is a theorem for monotone data (C29_fuse_pchip_time_antitone via C32/Whole.v, "
+               "log10 / 10** through their order contract) and is additionally checked on a 60-point grid for every fuse",
+               "list-form time grading: the grid search results (bus_path_multiple_ext_bus + get_line_path, parallel_lines) are observed on the "
+               "real functions and passed to the model; integer row labels in the settings frames",
                "(i_ka / I_s) ** alpha is an oracle value (numpy float power) passed to the model; its monotonicity is proved over R for the true power function"]
 TRUSTED = ["result tables res_switch_sc / res_switch written directly into the net (stub), relay settings set as attributes after construction"]
 KF_NAN = "C29-fuse-trips-on-nan-current"
 CURVES = ["standard_inverse", "very_inverse", "extremely_inverse", "long_inverse"]
-FUSE_TYPES = ["Siemens NH-2-315", "Siemens NH-2-425", "Siemens NH-2-630", "Siemens NH-2-224", "HV 63A"]
+FUSE_TYPES = ["Siemens NH-2-315", "Siemens NH-2-425", "Siemens NH-2-630", "Siemens NH-2-224", "HV 63A", "HV 10A"]
 
 
 def relay_net(switch_index=None):
@@ -147,6 +155,14 @@ def one_case(ctx, rng, D):
         gridx[0], gridx[-1] = i_start, i_stop
         gy = np.asarray(c(gridx), dtype=float)
         mono = bool(np.all(np.diff(gy) <= 1e-12 * np.abs(gy[:-1])) and np.all(gy >= 0))
+        # hypotheses of C29_fuse_pchip_time_antitone on the characteristic data actually stored in the net
+        lx_, ly_ = np.asarray(c.x_vals, dtype=float), np.asarray(c.y_vals, dtype=float)
+        mono_data = bool(len(lx_) >= 2 and np.all(np.diff(lx_) > 0) and np.all(np.diff(ly_) <= 0)
+                         and np.all(np.isfinite(lx_)) and np.all(np.isfinite(ly_)) and c.interpolator_kind == "Pchip")
+        ctx.count("fuse_data_monotone" if mono_data else "fuse_data_not_monotone")
+        if mono_data and not mono:
+            # the whole-curve theorem says this cannot happen: the real LogSplineCharacteristic is not the modelled PCHIP curve
+            ctx.violation("spec", "fuse characteristic with monotone data is not monotone on [i_start, i_stop]: %s" % gy[:8], desc)
         if not mono:
             ctx.count("fuse_curve_not_monotone")
         curs = sweep(rng, [i_start / 1000, i_stop / 1000], 0.0, i_stop / 1000 * 1.5)
@@ -161,7 +177,7 @@ def one_case(ctx, rng, D):
             sc_v, pp_v = (curm, other) if scenario == "sc" else (other, curm)   # the unselected table is irrelevant to the result
             terms.append("run_fuse %s %s %s %s %s %s" % (cq.q(i_start), cq.q(i_stop), cq.q(cv), scen_term(scenario), fz(sc_v), fz(pp_v)))
         pick = ("fuse", i_start / 1000)
-        graded = mono
+        graded = mono_data or mono
         thresholds = [i_start / 1000, i_stop / 1000]
     else:
         net = D.net
@@ -320,6 +336,7 @@ def run(ctx):
         manual_pickup(ctx, rng, D)
     for k in range(ctx.n(12, 80)):
         manual_times(ctx, rng, D)
+    grading_cases(ctx, rng)
 
 
 def manual_pickup(ctx, rng, D):
@@ -398,6 +415,195 @@ def manual_times(ctx, rng, D):
                 lo_cur, t_lo, hi_cur, t_hi, r.t_g, r.t_gg), case)
         elif t_hi > t_lo:
             ctx.violation("spec", "the larger current trips later: t(%r)=%r > t(%r)=%r" % (hi_cur, t_hi, lo_cur, t_lo), case)
+
+
+# ---------------------------------------------------------------- where the relay gets its settings from (C29.Grading)
+def grading_net(variant):
+    """A: example net; B: + a line parallel to line 1 with its own switch 6, one of the two parallel switches may be open;
+    C: shuffled, gapped switch index"""
+    if variant == "C":
+        return relay_net(switch_index=[7, 3, 12, 0, 5, 9])
+    net = relay_net()
+    if variant.startswith("B"):
+        pp.create_line(net, 1, 2, length_km=5, std_type="NAYY 4x50 SE")
+        net.line["endtemp_degree"] = 250
+        pp.create_switch(net, bus=1, element=6, et="l", type="CB_DTOC")
+        if variant == "B1":
+            net.switch.at[1, "closed"] = False
+        elif variant == "B6":
+            net.switch.at[6, "closed"] = False
+    return net
+
+
+def _grid_term(net):
+    from pandapower.protection.utility_functions import bus_path_multiple_ext_bus, get_line_path, parallel_lines
+    paths = [get_line_path(net, bp) for bp in bus_path_multiple_ext_bus(net)]          # observed on the real functions
+    par = parallel_lines(net)
+    closed = [(int(sw), int(net.switch.element.at[sw])) for sw in net.switch[net.switch.closed == True].index]
+    zl = lambda l: cq.lst([cq.z(int(v)) for v in l])
+    term = "{| paths := %s; par := %s; lines := %s; closed := %s |}" % (
+        cq.lst([zl(p_) for p_ in paths]), cq.lst(["(%s, %s)" % (cq.z(int(a)), cq.z(int(b))) for a, b in par]),
+        zl(net.line.index), cq.lst(["(%s, %s)" % (cq.z(a), cq.z(b)) for a, b in closed]))
+    return term, paths, closed
+
+
+def _fl(x):
+    return None if x is None else float(x)
+
+
+def grading_cases(ctx, rng):
+    """time_grading + the reads in create_protection_function against C29.Grading (table rows, the relay's four times, the
+    guards), and the oracle: the relay holds the user's values of ITS switch id"""
+    from pandapower.protection.protection_devices.ocrelay import time_grading
+    nets = {}
+    terms, keep = [], []
+    pk_terms, pk_keep = [], []
+    for it in range(ctx.n(36, 300)):
+        variant = rng.choice(["A", "A", "B", "B1", "B6", "C"])
+        if variant not in nets:
+            net = grading_net(variant)
+            nets[variant] = (net,) + _grid_term(net)
+        net, gterm, paths, closed = nets[variant]
+        sw_ids = [int(v) for v in net.switch.index]
+        closed_ids = [a for a, _ in closed]
+        s = int(rng.choice(closed_ids))
+        form = rng.choice(["list", "list", "frame", "frame", "frame"])
+        ty = rng.choice(["DTOC", "IDMT", "IDTOC"] if form == "list" else ["DTOC", "DTOC", "IDMT", "IDMT", "IDTOC"])
+        nrow = max(sw_ids) + 1
+        kvals = {"I_gg": [grid(rng, 1.0, 3.0) for _ in range(nrow)], "I_g": [grid(rng, 0.2, 0.9) for _ in range(nrow)],
+                 "I_s": [grid(rng, 0.05, 0.19) for _ in range(nrow)]}
+        k_sid = list(range(nrow))
+        if rng.random() < 0.4:
+            rng.shuffle(k_sid)
+        man = pd.DataFrame({"switch_id": k_sid, **kvals})
+        case = {"kind": "grading", "net": variant, "switch": s, "form": form, "type": ty}
+        if form == "list":
+            t3 = [rng.choice([0.0625, 0.125]), rng.choice([0.25, 0.5, 0.75]), rng.choice([0.125, 0.25, 0.375])]
+            t2 = [rng.choice([0.5, 1.0, 1.5]), rng.choice([0.25, 0.5])]
+            ts = {"DTOC": t3, "IDMT": t2, "IDTOC": t3 + t2}[ty]
+            case["time_settings"] = ts
+            tterm = "(TList %s)" % cq.lst([cq.q(v) for v in ts])
+            guard_py = sorted(closed_ids) == list(range(len(closed_ids)))
+            user = None
+        else:
+            ids = list(sw_ids)
+            mode = rng.choice(["range", "range", "shuffled_ids", "labels", "dup_label", "subset", "dup_sid"])
+            if mode in ("shuffled_ids", "labels", "dup_label"):
+                rng.shuffle(ids)
+            if mode == "subset":
+                ids = [i for i in ids if i == s or rng.random() < 0.6]
+            labels = list(range(len(ids)))
+            if mode == "labels":
+                labels = [v + rng.choice([0, 0, 10]) for v in rng.sample(range(len(ids) + 3), len(ids))]
+            if mode == "dup_label" and len(ids) > 1:
+                labels[1] = labels[0]
+            if mode == "dup_sid" and len(ids) > 1:
+                ids[1] = ids[0]                          # two rows for one switch: ValueError for that switch
+            colkind = rng.choice(["dtoc", "idmt", "dtoc", "idmt", "swapped"])
+            a = [rng.choice([0.0625, 0.125, 0.5, 1.0, 1.5]) + 0.001 * (i % 7) for i in ids]
+            b = [rng.choice([0.25, 0.5, 0.75, 1.25]) + 0.001 * (i % 5) for i in ids]
+            names = {"dtoc": ["switch_id", "t_gg", "t_g"], "idmt": ["switch_id", "tms", "t_grade"], "swapped": ["switch_id", "t_g", "t_gg"]}[colkind]
+            ts = pd.DataFrame({names[0]: ids, names[1]: a, names[2]: b}, index=labels)
+            case.update(columns=names, switch_ids=ids, labels=labels, c1=a, c2=b)
+            rows = ["{| lbl := %s; sid := %s; c1 := %s; c2 := %s |}" % (cq.z(l), cq.z(i), cq.q(x), cq.q(y)) for l, i, x, y in zip(labels, ids, a, b)]
+            tterm = "(TFrame %s %s)" % ({"dtoc": "ColsDtoc", "idmt": "ColsIdmt", "swapped": "ColsOther"}[colkind], cq.lst(rows))
+            guard_py = all(l == i for l, i in zip(labels, ids))
+            user = None
+            if colkind != "swapped" and ids.count(s) == 1:
+                k = ids.index(s)
+                user = (b[k], a[k])                       # (t_g | t_grade, t_gg | tms) of switch s
+        # ---- impl: the table and the relay
+        try:
+            tab = time_grading(net, ts if form == "frame" else ({"IDTOC": ts[:3]}.get(ty, ts)))
+            tab_rows = [[int(l), int(r_.switch_id), float(r_.t_g), float(r_.t_gg)] for l, r_ in zip(tab.index, tab.itertuples())]
+        except Exception as e:
+            tab_rows = cq.Err(type(e).__name__)
+        try:
+            r = OCRelay(net, switch_index=s, oc_relay_type=ty, time_settings=copy.deepcopy(ts), pickup_current_manual=man, overwrite=True)
+            got = [_fl(r.t_g), _fl(r.t_gg), _fl(r.tms), _fl(r.t_grade)]
+            picks = (r.I_g, r.I_gg, r.I_s)
+        except Exception as e:
+            got = cq.Err(type(e).__name__)
+            picks = None
+        case["relay"] = repr(got)
+        ctx.case(case, nontrivial=True, sample={"case": case} if it < 2 else None)
+        ctx.count("grading_%s_%s_%s" % (variant, form, ty))
+        terms.append("run_grading %s %s %s %s" % (ty, gterm, tterm, cq.z(s)))
+        keep.append((case, tab_rows, got, guard_py, form, ty))
+        # ---- oracle: the relay holds the user's values of its switch id
+        if form == "frame" and user is not None and ty != "IDTOC":
+            exp = [user[0], user[1], None, None] if ty == "DTOC" else [None, None, user[1], user[0]]
+            if got != exp:
+                ctx.violation("spec",
+                              "the relay of switch %r holds %r (t>, t>>, tms, t_grade), the user's row for switch_id %r says %r" % (s, got, s, exp), case)
+        if form == "list" and not isinstance(tab_rows, cq.Err):
+            mine = [r_ for r_ in tab_rows if r_[1] == s]
+            own = [len(p_) for p_ in paths if p_ and p_[-1] == dict(closed)[s]]
+            L = max(len(p_) for p_ in paths)
+            if len(mine) != 1:
+                ctx.violation("spec", "time_grading table has %d rows for the closed switch %r" % (len(mine), s), case)
+            else:
+                tg_tab, tgg_tab = mine[0][2], mine[0][3]
+                t_first = ts[:3] if ty != "IDMT" else [ts[0], ts[1], ts[1]]
+                if tgg_tab != t_first[0]:
+                    ctx.violation("spec", "list form: t>> / tms of switch %r in the table is %r, given %r" % (s, tgg_tab, t_first[0]), case)
+                if own and abs(tg_tab - (t_first[1] + (L - own[-1]) * t_first[2])) > 1e-12:
+                    ctx.violation("spec", "list form: t> of switch %r is %r, expected t> + depth * t_diff = %r" % (
+                        s, tg_tab, t_first[1] + (L - own[-1]) * t_first[2]), case)
+                exp = {"DTOC": [tg_tab, tgg_tab, None, None], "IDMT": [None, None, tgg_tab, tg_tab]}.get(ty)
+                if exp is not None and got != exp:
+                    ctx.violation("spec",
+                                  "list form: the relay of switch %r holds %r, the row of switch_id %r in the time_grading table says %r" % (s, got, s, exp), case)
+                if ty == "IDTOC" and (isinstance(got, cq.Err) or got[0] != tg_tab or got[1] != tgg_tab):
+                    ctx.violation("spec",
+                                  "list form: the IDTOC relay of switch %r holds %r, its row in the table says t>=%r t>>=%r" % (s, got, tg_tab, tgg_tab), case)
+        # ---- pick-up currents
+        gk = k_sid == list(range(nrow))
+        krows = ["{| k_sid := %s; k_Ig := %s; k_Igg := %s; k_Is := %s |}" % (cq.z(i), cq.q(x), cq.q(y), cq.q(z_))
+                 for i, x, y, z_ in zip(k_sid, kvals["I_g"], kvals["I_gg"], kvals["I_s"])]
+        pk_terms.append("run_pickup %s %s" % (cq.lst(krows), cq.z(s)))
+        pk_keep.append((case, picks, gk, ty))
+        if picks is not None:
+            k = k_sid.index(s)
+            exp = {"DTOC": (kvals["I_g"][k], kvals["I_gg"][k], None), "IDMT": (None, None, kvals["I_s"][k]),
+                   "IDTOC": (kvals["I_g"][k], kvals["I_gg"][k], kvals["I_s"][k])}[ty]
+            if tuple(picks) != exp:
+                ctx.violation("spec",
+                              "the relay of switch %r holds the pick-up currents %r, the user's row for switch_id %r says %r" % (s, picks, s, exp), case)
+    model = ctx.coq_eval("c29g", "Base.QN C29.Grading", terms, shard=40, timeout=600)
+    for (case, tab_rows, got, guard_py, form, ty), m in zip(keep, model):
+        ctx.corr_checked += 1
+        mtab, mrel, mold, mguard = m
+        if not isinstance(got, cq.Err) and mold != mrel:
+            ctx.count("old_times_rule_differs")           # regression witness: the pre-repair label read gives another row / KeyError
+        w = None
+        if isinstance(tab_rows, cq.Err) or isinstance(mtab, cq.Err):
+            if tab_rows != mtab and not (ty == "IDTOC" and form == "frame"):
+                w = "time_grading: impl %r model %r" % (tab_rows, mtab)
+        elif len(tab_rows) != len(mtab) or any(a[0] != b[0] or a[1] != b[1] or abs(a[2] - float(b[2])) > 1e-12 or abs(a[3] - float(b[3])) > 1e-12
+                                                for a, b in zip(tab_rows, mtab)):
+            w = "time_grading table: impl %r model %r" % (tab_rows, mtab)
+        if w is None:
+            if isinstance(got, cq.Err) or isinstance(mrel, cq.Err):
+                if got != mrel:
+                    w = "relay times: impl %r model %r" % (got, mrel)
+            elif any((a is None) != (b is None) or (a is not None and abs(a - float(b)) > 1e-12) for a, b in zip(got, mrel)):
+                w = "relay times: impl %r model %r" % (got, mrel)
+        if w is None and bool(mguard) != bool(guard_py):
+            w = "guard: python %r model %r" % (guard_py, mguard)
+        if w:
+            ctx.disagreement("OCRelay settings differ from C29.Grading: " + w, case)
+    pmodel = ctx.coq_eval("c29k", "Base.QN C29.Grading", pk_terms, shard=60, timeout=600)
+    for (case, picks, gk, ty), m in zip(pk_keep, pmodel):
+        if picks is None:
+            continue
+        ctx.corr_checked += 1
+        mrow, mold, mg = m
+        if isinstance(mold, cq.Err) or any(p_ is not None and abs(p_ - float(v)) > 1e-12 for p_, v in zip(picks, mold[1:])):
+            ctx.count("old_pickup_rule_differs")          # regression witness: the pre-repair positional read gives another row
+        ok = not isinstance(mrow, cq.Err) and all(p_ is None or abs(p_ - float(v)) < 1e-12 for p_, v in zip(picks, mrow[1:]))
+        if not ok or bool(mg) != bool(gk):
+            ctx.disagreement("manual pick-up currents: impl %r model row %r (guard python %r model %r)" % (picks, mrow, gk, mg), case)
 
 
 def replay(ctx, rec):
